@@ -203,9 +203,11 @@ func runWalkerCase(wc walkerCase) (map[string]any, error) {
 
 	// external cancellation
 	stopCanceller := make(chan struct{})
+	var cancelTime time.Time
 	doCancel := func() {
 		lg.mu.Lock()
 		lg.add("c")
+		cancelTime = time.Now()
 		lg.mu.Unlock()
 		cancel()
 	}
@@ -245,10 +247,14 @@ func runWalkerCase(wc walkerCase) (map[string]any, error) {
 		err error
 	}
 	resCh := make(chan walkRes, 1)
+	cancelToReturnUs := int64(-1)
 	go func() {
 		cm, err := walker.Walk(parent)
 		lg.mu.Lock()
 		lg.add("r", err != nil)
+		if !cancelTime.IsZero() {
+			cancelToReturnUs = time.Since(cancelTime).Microseconds()
+		}
 		lg.mu.Unlock()
 		resCh <- walkRes{cm, err}
 	}()
@@ -280,7 +286,12 @@ func runWalkerCase(wc walkerCase) (map[string]any, error) {
 		}
 		// let callbacks that are still in flight (Walk returned through ctx.Done) finish, and give
 		// routines that hold both a ready and a cancel message the chance to make their choice
-		deadline := time.Now().Add(3 * time.Second)
+		// (a pool job stranded in the queue by a cancelled context never answers: do not wait long then)
+		wait := 3 * time.Second
+		if errKind == "canceled" && pool != nil {
+			wait = 250 * time.Millisecond
+		}
+		deadline := time.Now().Add(wait)
 		for {
 			lg.mu.Lock()
 			n, before := lg.inflight, len(lg.trace)
@@ -317,6 +328,7 @@ func runWalkerCase(wc walkerCase) (map[string]any, error) {
 		}
 	}
 	out["stranded"] = lg.inflight
+	out["cancelToReturnUs"] = cancelToReturnUs
 	out["maxCmds"] = lg.maxCmds
 	lg.mu.Unlock()
 	out["trace"] = trace
